@@ -561,8 +561,28 @@ fn bin_session(rep: &mut Report, rng: &mut Rng, srv: &mut Server, logs: &[Log], 
                     f
                 })
                 .collect();
-            let page = if stream_pos.len() > 150 { stream_pos.len() / (2 + rng.usize_below(8)) + rng.usize_below(3) } else { 1 + rng.usize_below(50) };
+            let mut page = if stream_pos.len() > 150 { stream_pos.len() / (2 + rng.usize_below(8)) + rng.usize_below(3) } else { 1 + rng.usize_below(50) };
             let mut start = rng.usize_below(stream_pos.len() + 2);
+            // boundary searches: the page limit is reached at the last stream positions / exactly at the last hits
+            let mode = rng.below(6);
+            let mut sf = sf;
+            if mode == 0 {
+                if rng.chance(1, 2) {
+                    sf.clear(); // no search filter: every stream position is a hit
+                }
+                start = stream_pos.len().saturating_sub(1 + rng.usize_below(6));
+                page = 1 + rng.usize_below(3);
+            } else if mode == 1 {
+                let hits = (start..stream_pos.len()).filter(|p| spec_keep_set(&sf, &log.msgs[stream_pos[*p]].0, &log.msgs[stream_pos[*p]].1)).count();
+                if hits >= 2 && hits < 3000 {
+                    page = match rng.below(3) {
+                        0 => hits - 1,
+                        1 => hits,
+                        _ => 1 + (hits - 1) / 2,
+                    };
+                    rep.inc("searches_with_page_limit_at_the_last_hits");
+                }
+            }
             let first_start = start;
             let mut found: Vec<usize> = vec![];
             let mut pages = 0;
